@@ -11,6 +11,8 @@
 //!   nc-dec <proto> <key|-> <rp> <dg>       rp = - | n{,<u>}                          -> ok <seq> <packet> rp=<rp-dump|-> | err:<E> rp=<rp-dump|->
 //!        packet = req <ver13> <proto> <expire> <xnonce24> <data1024> | denied | chal <seq> <data300>
 //!               | resp <seq> <data300> | ka <client_index> <max_clients> | pay <hex> | disc
+//!   nc-stream <proto> <key> <hex>{,<hex>}   (decoded one after the other through ONE fresh replay window)
+//!                                         -> <r>{,<r>} rp=<rp-dump>     r = ok:<seq>:<req|denied|chal|resp|ka|pay|disc> | err:<E>
 //!   tok-write <id> <ver13> <proto> <create> <expire> <xnonce> <private1024> <timeout-i32> <addrs> <c2s> <s2c> -> ok <hex>
 //!   tok-read <hex>                        -> ok <same 11 fields> | err:<E>
 //!   tok-gen <now_us> <proto> <expire_secs> <id> <timeout> <addrs, no holes> <ud512hex|-> <key>   (ConnectToken::generate; random parts not shown)
@@ -370,6 +372,32 @@ impl NcWorld {
                     Err(e) => format!("err:{}", err_name(&e)),
                 };
                 Some(format!("{} rp={}", r, rp.map(|w| w.verif_dump()).unwrap_or("-".into())))
+            }
+            ["nc-stream", proto, key, dgs] => {
+                let proto = p_u64(proto)?;
+                let key: [u8; 32] = p_hexn(key)?;
+                let mut rp = ReplayProtection::new();
+                let mut outs: Vec<String> = vec![];
+                for h in dgs.split(',') {
+                    let mut buf = p_hex(h)?;
+                    outs.push(match Packet::decode(&mut buf, proto, Some(&key), Some(&mut rp)) {
+                        Ok((seq, p)) => format!(
+                            "ok:{}:{}",
+                            seq,
+                            match p {
+                                Packet::ConnectionRequest { .. } => "req",
+                                Packet::ConnectionDenied => "denied",
+                                Packet::Challenge { .. } => "chal",
+                                Packet::Response { .. } => "resp",
+                                Packet::KeepAlive { .. } => "ka",
+                                Packet::Payload(_) => "pay",
+                                Packet::Disconnect => "disc",
+                            }
+                        ),
+                        Err(e) => format!("err:{}", err_name(&e)),
+                    });
+                }
+                Some(format!("{} rp={}", outs.join(","), rp.verif_dump()))
             }
             ["tok-write", id, ver, proto, create, expire, xnonce, private, timeout, addrs, c2s, s2c] => {
                 let token = ConnectToken {
